@@ -541,6 +541,7 @@ type FuncContract struct {
 	Domain       []Clause
 	AssumeAfter  []Clause     // unchecked assumptions after calls to a callee (Case = callee key), over result/result1
 	AssumeBefore []Clause     // unchecked assumptions before calls to a callee (Case = callee key)
+	AssertBefore []Clause     // obligations before calls to a callee (Case = callee key, optionally "KEY[ArgType]"), over arg0, arg1, ... and the caller's state
 	Writes       []Clause     // per-store assertions (Case = variable name)
 	Returns      []Clause     // per-return assertions (Case = ordinal of the return statement in source order)
 	Havoc        bool         // callee may change every heap location; only its ensures (none, or proved separately) are assumed
@@ -743,6 +744,16 @@ func ParseContractFile(src, path string) (cf *ContractFile, err error) {
 				c.Case = strings.TrimSpace(rest[:idx])
 				cur.AssumeAfter = append(cur.AssumeAfter, c)
 				cf.Assumptions = append(cf.Assumptions, fmt.Sprintf("assume-after %s in %s: %s", c.Case, cur.Key, c.Text))
+			case "assert-before":
+				// assert-before CALLEEKEY[ArgType]: expr  -- obligation (kind callarg) right before calls to that
+				// callee (only those whose first argument has the named type, when given); arg0, arg1 ... are the arguments
+				idx := strings.Index(rest, ": ")
+				if idx < 0 {
+					panic(fmt.Errorf("%s:%d: assert-before syntax: assert-before KEY[ArgType]: expr", path, l.line))
+				}
+				c := mk(strings.TrimSpace(rest[idx+2:]), l.line)
+				c.Case = strings.TrimSpace(rest[:idx])
+				cur.AssertBefore = append(cur.AssertBefore, c)
 			case "assume-before":
 				// assume-before CALLEEKEY: expr  -- unchecked assumption (listed) right before calls to that callee
 				idx := strings.Index(rest, ": ")
